@@ -61,6 +61,14 @@ Lemma dv_eq H fuel version p c :
   end.
 Proof. reflexivity. Qed.
 
+(** the re-keyed versions after deleteVersion(v): [v] joins them when version v+1 has the root
+    node of version v as its root *)
+Definition rk_next (v : Z) (rn : option node) (r : list Z) : list Z :=
+  match rn with
+  | Some tn => if keqb (node_key tn) (v, 1) then v :: r else r
+  | None => r
+  end.
+
 Section Version.
   Variable H : bytes -> bytes.
   Variable f0 : forest_t.
@@ -250,33 +258,45 @@ Section Version.
     (** *** after the orphans: the root entry, then the re-keying *)
     Lemma tail_ok p2 c2 r :
       PIx f0 p2 (sub_of f') f' f' r v -> cache_ok c2 (disk p2) f' (v + 1) ->
-      exists p' c' r', dv_tail v p2 c2 = (POk p', c') /\ ST p' c' f' r' (v + 1).
+      exists p' c', dv_tail v p2 c2 = (POk p', c') /\ ST p' c' f' (rk_next v rn r) (v + 1).
     Proof.
       intros PX C2. pose proof PX as [Cx P]. pose proof (pi_disk _ _ _ _ _ _ P) as S.
       destruct (rkc_get_ok (sub_of f') f' v (disk p2) c2 (v + 1) (v + 1) rn S f'_roots_live f'_nodup C2
                   ltac:(lia) ltac:(left; reflexivity)) as (nextk & c3 & E3 & R3 & C3).
-      assert (Plain : exists p' c' r', (POk p2, c3) = (POk p', c') /\ ST p' c' f' r' (v + 1)).
-      { exists p2, c3, r. split; [reflexivity|]. split; [|exact C3].
+      assert (Plain : rk_next v rn r = r ->
+                exists p' c', (POk p2, c3) = (POk p', c') /\ ST p' c' f' (rk_next v rn r) (v + 1)).
+      { intros ->. exists p2, c3. split; [reflexivity|]. split; [|exact C3].
         apply (PIx_relax p2 _ f' f' r v f' (v + 1) PX); [apply incl_refl|lia]. }
       unfold dv_tail. rewrite E3. cbv beta iota zeta.
-      destruct nextk as [nk|]; [|exact Plain].
-      destruct (keqb nk (v, 1)) eqn:K; [|exact Plain].
-      apply keqb_true in K. subst nk.
-      destruct (opt_cases rn) as [(tn & Ern)|Ern]; rewrite Ern in R3; cbn [rval] in R3; [|contradiction].
+      destruct (opt_cases rn) as [(tn & Ern)|Ern]; rewrite Ern in R3; cbn [rval] in R3.
+      2:{ destruct nextk; [contradiction|]. apply Plain. rewrite Ern. reflexivity. }
+      destruct nextk as [nk|]; [|contradiction].
       assert (Ltn : sub_of f' tn).
       { exists (v + 1), tn. split; [left; rewrite Ern; reflexivity|apply sub_refl]. }
-      rewrite (get_node_keyok (sub_of f') f' v (disk p2) (v, 1) tn S Ltn R3).
-      assert (Kt : node_key tn = (v, 1)).
-      { destruct R3 as [Q|(_ & Q & _)]; [symmetry; exact Q|inversion Q]. }
-      destruct (PIx_rekey f0 FI p2 (sub_of f') f' f' r v tn PX Ltn Kt f'_above) as [PX4 Tr4].
-      eexists. exists c3, (v :: r). split; [reflexivity|]. split; [exact PX4|].
-      apply (cache_ok_transport _ _ _ _ _ C3). intros w t k I Kk.
-      apply Tr4; [|exact Kk]. exists w, t. split; [exact I|apply sub_refl].
+      destruct (keqb nk (v, 1)) eqn:K.
+      - apply keqb_true in K. subst nk.
+        rewrite (get_node_keyok (sub_of f') f' v (disk p2) (v, 1) tn S Ltn R3).
+        assert (Kt : node_key tn = (v, 1)).
+        { destruct R3 as [Q|(_ & Q & _)]; [symmetry; exact Q|inversion Q]. }
+        destruct (PIx_rekey f0 FI p2 (sub_of f') f' f' r v tn PX Ltn Kt f'_above) as [PX4 Tr4].
+        eexists. exists c3. split; [reflexivity|].
+        assert (Er : rk_next v rn r = v :: r).
+        { rewrite Ern. unfold rk_next. rewrite Kt, (proj2 (keqb_true _ _) eq_refl). reflexivity. }
+        rewrite Er. split; [exact PX4|].
+        apply (cache_ok_transport _ _ _ _ _ C3). intros w t k I Kk.
+        apply Tr4; [|exact Kk]. exists w, t. split; [exact I|apply sub_refl].
+      - apply Plain. rewrite Ern. unfold rk_next.
+        assert (Kt : keqb (node_key tn) (v, 1) = false); [|rewrite Kt; reflexivity].
+        destruct R3 as [Q|(N1 & Q & Pr)]; [rewrite <- Q; exact K|].
+        apply keqb_false. unfold node_key. intros Q'. inversion Q' as [[Qv Qn]].
+        destruct S as (_ & _ & _ & _ & Db).
+        destruct (mfind kcmp nk (disk p2)) as [e|] eqn:F; [|congruence]. rewrite Q in F.
+        specialize (Db _ _ F). lia.
     Qed.
 
     Lemma dv_some p c r tv :
       rv = Some tv -> ST p c fc r v ->
-      exists p' c' r', delete_version H fuel v p c = (POk p', c') /\ ST p' c' f' r' (v + 1).
+      exists p' c', delete_version H fuel v p c = (POk p', c') /\ ST p' c' f' (rk_next v rn r) (v + 1).
     Proof.
       intros Erv [PX C]. pose proof PX as [Cx P]. pose proof (pi_disk _ _ _ _ _ _ P) as S.
       destruct (rkc_get_ok (sub_of fc) fc v (disk p) c v v rv S fc_roots_live fc_nodup C
@@ -312,7 +332,7 @@ Section Version.
 
     Lemma dv_none p c r :
       rv = None -> ST p c fc r v ->
-      exists p' c' r', delete_version H fuel v p c = (POk p', c') /\ ST p' c' f' r' (v + 1).
+      exists p' c', delete_version H fuel v p c = (POk p', c') /\ ST p' c' f' (rk_next v rn r) (v + 1).
     Proof.
       intros Erv [PX C]. pose proof PX as [Cx P]. pose proof (pi_disk _ _ _ _ _ _ P) as S.
       destruct (rkc_get_ok (sub_of fc) fc v (disk p) c v v rv S fc_roots_live fc_nodup C
@@ -333,7 +353,7 @@ Section Version.
 
     Theorem delete_version_ok p c r :
       ST p c fc r v ->
-      exists p' c' r', delete_version H fuel v p c = (POk p', c') /\ ST p' c' f' r' (v + 1).
+      exists p' c', delete_version H fuel v p c = (POk p', c') /\ ST p' c' f' (rk_next v rn r) (v + 1).
     Proof.
       intros HS. destruct (opt_cases rv) as [(tv & E)|E]; [exact (dv_some p c r tv E HS)|exact (dv_none p c r E HS)].
     Qed.
